@@ -118,3 +118,11 @@ Print Assumptions gg_goal_to_terminal.
 Theorem gg_terminal_absorbing : forall L ja, gg_next_state_dist L None ja = [(None, 1)].
 Proof. exact gg_terminal_absorbing_thm. Qed.
 Print Assumptions gg_terminal_absorbing.
+
+(* The hypotheses "valid state, agents apart" are closed under the transitions: they hold of every reachable
+   non-terminal, non-goal state when they hold initially. *)
+Theorem gg_valid_closed : forall L cur ja pos,
+  state_valid L cur -> outcome_ok L cur ja pos ->
+  state_valid L pos /\ (~ on_own_goal L pos -> agents_apart pos).
+Proof. exact gg_valid_closed_thm. Qed.
+Print Assumptions gg_valid_closed.
